@@ -143,6 +143,7 @@ pub fn gen_scenario(r: &mut Rng) -> Option<Scenario> {
         }
     }
     let bio_out = r.chance(1, 2);
+    let bio_multi = bio && bio_out && r.chance(1, 3);
     let biocr = *r.pick(&["BIOMASA", "BIOMASADENSIFICADA"]);
     let two_bio = bio && r.chance(1, 5);
     let other_bio = if biocr == "BIOMASA" { "BIOMASADENSIFICADA" } else { "BIOMASA" };
@@ -165,6 +166,14 @@ pub fn gen_scenario(r: &mut Rng) -> Option<Scenario> {
         if bio_out {
             let o: Vec<f32> = b5.iter().map(|x| x * 0.75).collect();
             lines.push(Line::Out { id: 5, srv: "ACS".into(), v: o, comment: String::new() });
+            if bio_multi {
+                // the same boiler also heats: its heating input and output are declared too, only the DHW output counts
+                let hc = vals(r, n, 120.0, 1);
+                let ho: Vec<f32> = hc.iter().map(|x| x * 0.75).collect();
+                lines.push(used(5, "CAL", biocr, &hc));
+                lines.push(Line::Out { id: 5, srv: "CAL".into(), v: ho, comment: String::new() });
+                mixes.push("biomass_system_also_heating_with_declared_outputs".into());
+            }
         }
         if two_bio {
             b6 = vals(r, n, 50.0, 1);
@@ -202,7 +211,7 @@ pub fn gen_scenario(r: &mut Rng) -> Option<Scenario> {
         mixes.push("auxiliaries".into());
         mixes.push("direct_electric_tiny_next_to_large_auxiliaries".into());
     }
-    let aux = !tiny_joule && r.chance(1, 3);
+    let aux = !tiny_joule && r.chance(1, 3) && !(bio_multi && !joule && !hp && !dist);
     // auxiliaries of an electric DHW system, or (DHW electricity = auxiliaries only) of a non-electric one
     let auxid = if joule {
         1
@@ -244,7 +253,7 @@ pub fn gen_scenario(r: &mut Rng) -> Option<Scenario> {
         if dist && auxid != 4 {
             others.push(4);
         }
-        if bio && auxid != 5 {
+        if bio && auxid != 5 && !bio_multi {
             others.push(5);
         }
         if !others.is_empty() && r.chance(1, 2) {
